@@ -153,7 +153,7 @@ def _set_algo(simu, algo, dt=0.1):
     if algo == "parabolic":
         simu.Solver_Set_Parabolic_Algorithm(dt, alpha=0.5)
     else:
-        simu.Solver_Set_Hyperbolic_Algorithm(dt, algo=AlgoType(algo), alpha=0.2 if algo == "hht" else 0.5)
+        simu.Solver_Set_Hyperbolic_Algorithm(dt, algo=AlgoType(algo), alpha=0.2 if algo in ("hht", "hht_newmark") else 0.5)
 
 
 def hyper_law(m, dim):
